@@ -224,6 +224,164 @@ biteq_struct!(Wide { f01, f02, f03, f04, f05, f06, f07, f08, f09, f10, f11, f12 
 biteq_via_eq!(Empty, Named, Tuple2, Newtype, Nested, UnitEnum, Mixed, Times, Vecs, WithValue, VecOfEnum, VecOfEmpty, Deep);
 
 // ---------------------------------------------------------------------------
+// "how the type is declared": explicit discriminants, reprs, single-variant
+// and many-variant enums, unit / empty-tuple / wide tuple structs, several
+// generic parameters with a where clause, const generics
+
+/// fieldless, explicit discriminants: not starting at 0, with gaps
+#[derive(DbSerialize, DbValue, DbTypeMarker, Clone, Copy, Debug, PartialEq, Default)]
+pub enum Priority {
+    Low = 1,
+    #[default]
+    Normal = 5,
+    High = 10,
+}
+/// explicit and implicit discriminants mixed
+#[derive(DbSerialize, DbValue, DbTypeMarker, Clone, Copy, Debug, PartialEq, Default)]
+pub enum Gap {
+    #[default]
+    A = 2,
+    B,
+    C = 9,
+    D,
+}
+/// repr(u8), discriminants in descending / non-monotone order
+#[derive(DbSerialize, DbValue, DbTypeMarker, Clone, Copy, Debug, PartialEq, Default)]
+#[repr(u8)]
+pub enum ReprU8 {
+    #[default]
+    A = 200,
+    B = 3,
+    C = 0,
+    D = 255,
+}
+/// repr(i32) with a negative and a large discriminant
+#[derive(DbSerialize, Clone, Copy, Debug, PartialEq)]
+#[repr(i32)]
+pub enum ReprI32 {
+    Neg = -1,
+    Zero = 0,
+    Big = 70000,
+}
+/// explicit discriminants on an enum that also has payload variants
+#[derive(DbSerialize, Clone, Debug, PartialEq)]
+#[repr(u8)]
+pub enum MixedRepr {
+    A = 7,
+    B(u64) = 3,
+    C { x: String } = 9,
+    D = 1,
+}
+#[derive(DbSerialize, Clone, Debug, PartialEq)]
+pub enum OneUnit {
+    Only,
+}
+#[derive(DbSerialize, DbValue, DbTypeMarker, Clone, Debug, PartialEq)]
+pub enum OneTuple {
+    Only(u64, String),
+}
+#[derive(DbSerialize, Clone, Debug, PartialEq)]
+pub enum OneStruct {
+    Only { a: Vec<u8>, p: Priority },
+}
+#[derive(DbSerialize, Clone, Debug, PartialEq)]
+pub struct UnitStruct;
+#[derive(DbSerialize, Clone, Debug, PartialEq)]
+pub struct Tuple0();
+#[derive(DbSerialize, DbValue, DbTypeMarker, Clone, Debug)]
+pub struct Tuple5(pub u64, pub String, pub Vec<u8>, pub bool, pub f64);
+/// two type parameters and a where clause
+#[derive(DbSerialize, DbValue, Clone, Debug, PartialEq)]
+pub struct Pair<A, B>
+where
+    A: AgdbSerialize,
+    B: AgdbSerialize,
+{
+    pub a: A,
+    pub b: Vec<B>,
+    pub n: u64,
+}
+#[derive(DbSerialize, Clone, Debug, PartialEq)]
+pub struct ConstGen<const N: usize> {
+    pub v: Vec<u64>,
+    pub s: String,
+}
+/// the declaration shapes nested in vectors and in each other
+#[derive(DbSerialize, Clone, Debug, PartialEq)]
+pub struct DeclNest {
+    pub ps: Vec<Priority>,
+    pub gs: Vec<Gap>,
+    pub rs: Vec<ReprU8>,
+    pub ms: Vec<MixedRepr>,
+    pub one: OneTuple,
+    pub unit: UnitStruct,
+    pub t0: Tuple0,
+    pub us: Vec<OneUnit>,
+}
+
+macro_rules! grid_list {
+    ($t:ty: $($v:expr),+ $(,)?) => {
+        impl Grid for $t {
+            const VEC_LENS: &'static [usize] = &[0, 1, 2, 4];
+            fn grid(b: usize) -> Vec<Self> {
+                cap(vec![$($v),+], b)
+            }
+        }
+    };
+}
+grid_list!(Priority: Priority::Low, Priority::Normal, Priority::High);
+grid_list!(Gap: Gap::A, Gap::B, Gap::C, Gap::D);
+grid_list!(ReprU8: ReprU8::A, ReprU8::B, ReprU8::C, ReprU8::D);
+grid_list!(ReprI32: ReprI32::Neg, ReprI32::Zero, ReprI32::Big);
+grid_list!(OneUnit: OneUnit::Only);
+grid_list!(UnitStruct: UnitStruct);
+grid_list!(Tuple0: Tuple0());
+impl Grid for MixedRepr {
+    const VEC_LENS: &'static [usize] = &[0, 1, 4];
+    fn grid(b: usize) -> Vec<Self> {
+        cap(interleave(vec![vec![MixedRepr::A, MixedRepr::D], u64::grid(4).into_iter().map(MixedRepr::B).collect(), String::grid(5).into_iter().map(|x| MixedRepr::C { x }).collect()]), b)
+    }
+}
+impl Grid for OneTuple {
+    fn grid(b: usize) -> Vec<Self> {
+        prod2(&u64::grid(fb(b)), &String::grid(fb(b)), b).into_iter().map(|(x, y)| OneTuple::Only(x, y)).collect()
+    }
+}
+impl Grid for OneStruct {
+    fn grid(b: usize) -> Vec<Self> {
+        prod2(&Vec::<u8>::grid(fb(b)), &Priority::grid(3), b).into_iter().map(|(a, p)| OneStruct::Only { a, p }).collect()
+    }
+}
+impl Grid for Tuple5 {
+    fn grid(b: usize) -> Vec<Self> {
+        let (a, s, v, f, x) = (u64::grid(fb(b)), String::grid(fb(b)), Vec::<u8>::grid(fb(b)), bool::grid(2), f64::grid(fb(b)));
+        index_tuples(&[a.len(), s.len(), v.len(), f.len(), x.len()], b).into_iter().map(|i| Tuple5(a[i[0]], s[i[1]].clone(), v[i[2]].clone(), f[i[3]], x[i[4]])).collect()
+    }
+}
+impl BitEq for Tuple5 {
+    fn bit_eq(&self, o: &Self) -> bool {
+        self.0 == o.0 && self.1 == o.1 && self.2 == o.2 && self.3 == o.3 && self.4.bit_eq(&o.4)
+    }
+}
+impl<A: AgdbSerialize + Grid, B: AgdbSerialize + Grid> Grid for Pair<A, B> {
+    fn grid(b: usize) -> Vec<Self> {
+        prod3(&A::grid(fb(b)), &Vec::<B>::grid(fb(b)), &u64::grid(fb(b)), b).into_iter().map(|(a, bb, n)| Pair { a, b: bb, n }).collect()
+    }
+}
+impl<A: AgdbSerialize + BitEq, B: AgdbSerialize + BitEq> BitEq for Pair<A, B> {
+    fn bit_eq(&self, o: &Self) -> bool {
+        self.a.bit_eq(&o.a) && self.b.bit_eq(&o.b) && self.n == o.n
+    }
+}
+impl<const N: usize> Grid for ConstGen<N> {
+    fn grid(b: usize) -> Vec<Self> {
+        prod2(&Vec::<u64>::grid(fb(b)), &String::grid(fb(b)), b).into_iter().map(|(v, s)| ConstGen { v, s }).collect()
+    }
+}
+grid_struct!(DeclNest { ps: Vec<Priority>, gs: Vec<Gap>, rs: Vec<ReprU8>, ms: Vec<MixedRepr>, one: OneTuple, unit: UnitStruct, t0: Tuple0, us: Vec<OneUnit> });
+biteq_via_eq!(Priority, Gap, ReprU8, ReprI32, MixedRepr, OneUnit, OneTuple, OneStruct, UnitStruct, Tuple0, ConstGen<3>, ConstGen<0>, DeclNest);
+
+// ---------------------------------------------------------------------------
 // custom value types (derive DbValue): stored as DbValue::Bytes
 
 #[derive(Default, Debug, Clone, PartialEq, DbTypeMarker, DbValue, DbSerialize)]
@@ -558,5 +716,24 @@ pub mod user {
         pub cache: Vec<u64>,
         #[agdb(flatten)]
         pub inner: InnerLeaf,
+    }
+
+    /// declaration shapes as stored values: enums with explicit discriminants
+    /// / repr, single-variant enum, wide tuple struct, two-parameter generic -
+    /// plain, optional and in vectors
+    #[derive(DbType, Clone, Debug)]
+    pub struct DeclShapes {
+        pub db_id: Option<DbId>,
+        pub prio: Priority,
+        pub oprio: Option<Priority>,
+        pub vprio: Vec<Priority>,
+        pub gap: Gap,
+        pub vrepr: Vec<ReprU8>,
+        pub orepr: Option<ReprU8>,
+        pub one: OneTuple,
+        pub vone: Vec<OneTuple>,
+        pub t5: Tuple5,
+        pub pair: Pair<u64, String>,
+        pub opair: Option<Pair<Priority, Gap>>,
     }
 }
